@@ -26,3 +26,19 @@ package validate
 //@   ensures[others]   forall j int :: j != k ==> has(m, j) == old(has(m, j)) && m[j] == old(m[j])
 //@   ensures[inv]      pkgInv()
 //@   ensures[key_kept] key[..] == old(key[..])
+
+// ---------------------------------------------------------------- validate.go (C02): level names as written in the configuration
+//@ func (l *LevelLegacy) UnmarshalText(text []byte) error
+//@   property C02
+//@   modifies l.Level
+//@   ensures[strict] text[..] == "strict" ==> result == nil && l.Level == carbon20.StrictLegacy
+//@   ensures[medium] text[..] == "medium" ==> result == nil && l.Level == carbon20.MediumLegacy
+//@   ensures[none]   text[..] == "none"   ==> result == nil && l.Level == carbon20.NoneLegacy
+//@   ensures[other]  text[..] != "strict" && text[..] != "medium" && text[..] != "none" ==> result != nil
+//@
+//@ func (l *LevelM20) UnmarshalText(text []byte) error
+//@   property C02
+//@   modifies l.Level
+//@   ensures[medium] text[..] == "medium" ==> result == nil && l.Level == carbon20.MediumM20
+//@   ensures[none]   text[..] == "none"   ==> result == nil && l.Level == carbon20.NoneM20
+//@   ensures[other]  text[..] != "medium" && text[..] != "none" ==> result != nil
